@@ -30,7 +30,32 @@ def parseCols? (s : String) : Option (List (Str × Str)) :=
       pure (x, y)
     | _ => none)
 
+def optNat? (s : String) : Option (Option Nat) :=
+  if s == "N" then some none else s.toNat?.map some
+
+/-- `c:<lim|N>` | `i:<T|F>:<name>` | `k:<T|F>:<name>` | `l:<name>`; names as `s:` tokens -/
+def parseLOp? (s : String) : Option LOp :=
+  match s.splitOn ":" with
+  | ["c", l] => (optNat? l).map LOp.connect
+  | ["i", t, "s", n] => (parseCps? ("s:" ++ n)).map (LOp.fmtIndex (t == "T"))
+  | ["k", t, "s", n] => (parseCps? ("s:" ++ n)).map (LOp.fmtConstraint (t == "T"))
+  | ["l", "s", n] => (parseCps? ("s:" ++ n)).map LOp.label
+  | _ => none
+
+def showLOut : LOut → String
+  | .connected => "connected"
+  | .argumentError => "argumenterror"
+  | .identifierError => "identifiererror"
+  | .name r => showCps r
+
 def handle : List String → String
+  | ["life", mi, ud, ll, mx, mc, md5, ops] =>
+    match mi.toNat?, optNat? ll, optNat? mx, optNat? mc, parseCps? md5,
+        (if ops == "-" then some [] else (ops.splitOn ",").mapM parseLOp?) with
+    | some m, some l, some x, some c, some h, some os =>
+      let st : DState := ⟨m, ud == "T", l, x, c⟩
+      "|".intercalate ((lifeRun (fun _ => h) st os).map (fun e => showLOut e.2.2))
+    | _, _, _, _, _, _ => "bad-op"
   | ["trunc", isT, name, max, mi, md5] =>
     match parseCps? name, max.toNat?, mi.toNat?, parseCps? md5 with
     | some n, some m, some i, some h =>
